@@ -202,6 +202,17 @@ def _(a, b):
     with contextlib.redirect_stdout(io.StringIO()):
         T = P.PersistenceLandscaper(hom_deg=1, num_steps=15, flatten=True)
         return [T.fit_transform([a, b]), T.start, T.stop, T.transform([b, a])]
+@entry("shared PersistenceLandscaper.transform", ("shared", "dgmpos", "dgmpos"))
+def _(shared, a, b):
+    # one long-lived, never fitted transformer with default grid limits, used for whatever data comes along: its answer for
+    # given data must not depend on what it transformed before
+    with contextlib.redirect_stdout(io.StringIO()):
+        T = shared["landscaper"]
+        return [T.transform([a, b]), T.get_params()]
+@entry("shared PersistenceImager.transform", ("shared", "dgmfin"))
+def _(shared, a):
+    I = shared["imager"]
+    return [I.transform(a, skew=True), I.birth_range, I.pers_range, I.resolution]
 @entry("plot_diagrams", ("dgmspread", "dgm"))
 def _(a, b):
     with fresh_axes() as ax:
@@ -285,7 +296,13 @@ def make_pool(rng):
                        {"pixel_size": 1.0, "birth_range": (-1.0, 4.0), "pers_range": (0.0, 5.0), "kernel_params": {"sigma": np.array([[0.5, 0.2], [0.2, 0.4]])}},
                        {"pixel_size": 0.7, "weight": "linear_ramp", "weight_params": {"low": 0.0, "high": 1.0, "start": 0.0, "end": 2.0},
                         "kernel": "uniform", "kernel_params": {"width": 1.0, "height": 2.0}}]
+    pool["shared"] = [make_shared()]
     return pool
+
+
+def make_shared():
+    return {"landscaper": P.PersistenceLandscaper(hom_deg=0, num_steps=12),
+            "imager": P.PersistenceImager(pixel_size=0.5, birth_range=(-1.0, 4.0), pers_range=(0.0, 4.0), kernel_params={"sigma": 0.3})}
 
 
 def pick(rng, pool, kind):
@@ -387,8 +404,9 @@ def run_case(ctx, k, rng):
     # replay phase: every distinct call once more, in reverse order, on fresh equal-valued copies - history-dependent state
     # (caches keyed by identity, leaked globals) shows up as a different result for the same values
     import copy as _copy
+    fresh_shared = make_shared()        # long-lived estimators are replaced by brand-new ones: their answers must not depend on their past
     for name, picks, vkey in list(reversed(first_seen))[:25]:
-        args = [_copy.deepcopy(p[0]) if isinstance(p[0], (np.ndarray, list)) else p[0] for p in picks]
+        args = [_copy.deepcopy(p[0]) if isinstance(p[0], (np.ndarray, list)) else (fresh_shared if p[1][0] == "shared" else p[0]) for p in picks]
         try:
             ctx.ran()
             with warnings.catch_warnings():
